@@ -1,6 +1,10 @@
 package checks
 
-import "strings"
+import (
+	"strings"
+
+	"github.com/bartossh/Computantis/src/wallet"
+)
 
 func containsAny(s string, subs ...string) bool {
 	for _, x := range subs {
@@ -10,3 +14,5 @@ func containsAny(s string, subs ...string) bool {
 	}
 	return false
 }
+
+func walletVerifier() wallet.Helper { return wallet.NewVerifier() }
